@@ -479,7 +479,16 @@ def r_postponed(root):
                         pass
                 else: uses = [gcall]
                 inst += 1
-                bad = [u for u in uses if not fi.holds(u, want, False)]
+                # a use is fine where the check is known false, or where every path from the read to the use evaluates the check
+                # (its true branch answers Postponed and leaves)
+                wkey = want.replace(" ", "")
+                checks = [n for n in fi.cfg.nodes if n.kind == "cond" and n.ast is not None and any(" ".join(fi.text(x, at=x).split()).replace(" ", "") == wkey for x in ast.walk(n.ast) if isinstance(x, ast.Call))]
+                dn_ = fi.node_of(gcall)
+                def _ok_use(u):
+                    if fi.holds(u, want, False): return True
+                    un = fi.node_of(u)
+                    return bool(checks) and dn_ is not None and un is not None and fi.cfg.paths_avoiding(dn_, un, lambda n: n in checks) is None
+                bad = [u for u in uses if not _ok_use(u)]
                 # a use that only re-wraps the value (`if not isinstance(v, list): v = [v]`) re-defines v: later uses are found through that definition
                 for p in (("C11", "C09") if rel == RREL else ("C09",)):
                     ob(p, p + ".P", rel, q, "%s: %d uses under not %s" % (" ".join(ast.unparse(gcall).split()), len(uses), want), not bad)
